@@ -492,6 +492,12 @@ class _PythonCodeAssist:
         start = fixsyntax._logical_start(lines, lineno)
         indents = fixsyntax._get_line_indents(lines[start - 1])
         inner_scope = module_scope.get_inner_scope_for_line(start, indents)
+        if (
+            inner_scope.get_kind() == "Class"
+            and inner_scope.get_start() <= start < inner_scope.get_body_start()
+        ):
+            # a class header sees the enclosing scope, not the class's members
+            inner_scope = inner_scope.parent
         if self.word_finder.is_a_name_after_from_import(self.offset):
             return self._from_import_completions(pymodule)
         if self.expression.strip() != "":
